@@ -136,7 +136,25 @@ def run_family(prop, b, fam, profile, seed, tier):
     out_file = os.path.join(WORK, f"{prop}_{b}_{fam}_{profile}.txt")
     rc, out = sh([bin_path(b, profile), "gen", fam, str(seed), tier, out_file], timeout=7200)
     if rc != 0:
-        fail_infra(f"harness {b} gen {fam} ({profile}) exited {rc}", out)
+        # The harness catches panics per case, so a non-zero exit means one input made the implementation hang (watchdog,
+        # status 3, input in <out>.hang) or killed the process (abort / stack overflow / allocation failure). Re-run with a
+        # trace to learn which input; if the re-run succeeds it was the environment, not the code.
+        killer, how = None, None
+        if rc == 3 and os.path.exists(out_file + ".hang"):
+            killer, how = open(out_file + ".hang").read().strip(), "does not return (no result within the per-case time limit)"
+        else:
+            trace = out_file + ".trace"
+            rc2, out2 = sh([bin_path(b, profile), "gen", fam, str(seed), tier, out_file], timeout=7200, env={"VERIF_TRACE": trace})
+            if rc2 == 3 and os.path.exists(out_file + ".hang"):
+                killer, how = open(out_file + ".hang").read().strip(), "does not return (no result within the per-case time limit)"
+            elif rc2 != 0 and os.path.exists(trace):
+                killer, how = open(trace).read().strip(), f"kills the process (exit status {rc2}): " + (out2 or out)[-400:].strip()
+            elif rc2 != 0:
+                fail_infra(f"harness {b} gen {fam} ({profile}) exited {rc} and {rc2}", out + out2)
+            else:
+                fail_infra(f"harness {b} gen {fam} ({profile}) exited {rc} once and succeeded when re-run", out)
+        d = {"n": 0, "kind": "spec abort", "line": killer + " => <no result>", "model": "(not evaluated)", "spec": how, "profile": profile, "bin": b}
+        return out_file, [d], [], {"lines": 0, "ok": 0, "raw_identical": 0, "diffs": 1, "bad": 0}
     # the driver is single-threaded: split the case file and run several drivers in parallel
     with open(out_file) as f:
         lines = f.readlines()
